@@ -135,8 +135,16 @@ def run(ctx):
     if ok_extract and not proved:
         ctx.cov["proof_failure"] = ctx.proof_failure
 
-    # ---- implementation side
+    # ---- implementation side: minimised past failures first, then the generated scripts
+    import glob, json
+    corpus = []
+    for f in sorted(glob.glob(os.path.join(vf.VERIF, "corpus", "C11", "*.json"))):
+        corpus.append(json.load(open(f))["script"])
     rows, leak = _run_harness(ctx)
+    if corpus:
+        rows_c, _ = _run_harness(ctx, corpus, q=10, extra=["-leakcheck=false"])
+        rows = rows_c + rows
+    ctx.cov["corpus_scripts"] = len(corpus)
     n_total = len(rows)
     dist = Counter()
     nontrivial = set()
